@@ -192,6 +192,79 @@ def copy (n : Nat) (m : M) : Except Err M :=
     else .error .crash
   | _, _ => .error .crash
 
+/-- outside the destination range a copy changes nothing -/
+theorem copyCells_outside (cells : Nat → Bool) (src dst n k : Nat) (h : k < dst ∨ dst + n ≤ k) :
+    copyCells cells src dst n k = cells k := by
+  induction n generalizing cells src dst with
+  | zero => rfl
+  | succ n ih =>
+    simp only [copyCells]
+    rw [ih _ _ _ (by omega)]
+    simp only [upd]
+    rw [if_neg (by omega)]
+
+/-- `copyCells` on an array snapshot of the cells -/
+def copyArr (arr : Array Bool) (src dst : Nat) : Nat → Array Bool
+  | 0 => arr
+  | n+1 => copyArr (arr.setIfInBounds dst (arr.getD src false)) (src + 1) (dst + 1) n
+
+theorem copyArr_spec (cap : Nat) : ∀ (n : Nat) (arr : Array Bool) (cells : Nat → Bool) (src dst : Nat),
+    arr.size = cap → src + n ≤ cap → dst + n ≤ cap → (∀ j, j < cap → arr.getD j false = cells j) →
+    (copyArr arr src dst n).size = cap ∧
+      ∀ j, j < cap → (copyArr arr src dst n).getD j false = copyCells cells src dst n j
+  | 0, arr, cells, src, dst, hs, _, _, h => ⟨hs, h⟩
+  | n+1, arr, cells, src, dst, hs, h1, h2, h => by
+    simp only [copyArr, copyCells]
+    apply copyArr_spec cap n _ _ _ _ (by simp [hs]) (by omega) (by omega)
+    intro j hj
+    simp only [upd]
+    by_cases e : j = dst
+    · subst e
+      rw [if_pos rfl, ← h src (by omega)]
+      simp [Array.getD, hs, hj]
+    · rw [if_neg e, ← h j hj]
+      have e' : ¬ dst = j := fun x => e x.symm
+      simp [Array.getD, hs, hj, Array.getElem_setIfInBounds, e']
+
+/-- What the compiled driver runs for `copy` (`@[csimp]` below proves it equal).  A function-valued
+result such as `copyCells cells src dst n` is compiled as a partial application that redoes the
+whole recursion — and every read of the old memory in it — at each later read, so a chain of `k`
+copies of `n` bits costs `n^k`; here the cells below `cap` are evaluated once into an array and the
+copy is done on the array. -/
+def copyImpl (n : Nat) (m : M) : Except Err M :=
+  if n = 0 then .ok m else
+  match m.read, m.write with
+  | r :: _, w :: ws =>
+    if r.cursor + n ≤ m.cap ∧ w.cursor + n ≤ m.cap then
+      let old := m.cells
+      let arr0 : Array Bool := Array.ofFn (n := m.cap) fun i => old i.val
+      let arr := copyArr arr0 r.cursor w.cursor n
+      .ok { m with cells := fun j => if j < m.cap then arr.getD j false else old j,
+                   write := { w with cursor := w.cursor + n } :: ws }
+    else .error .crash
+  | _, _ => .error .crash
+
+@[csimp] theorem copy_eq_copyImpl : @copy = @copyImpl := by
+  funext n m
+  unfold copy copyImpl
+  split
+  · rfl
+  · split
+    · rename_i r _ w ws _ _
+      split
+      · rename_i hc
+        congr 2
+        funext j
+        split
+        · rename_i hj
+          have h0 : ∀ j, j < m.cap → (Array.ofFn (n := m.cap) fun i => m.cells i.val).getD j false = m.cells j := by
+            intro j hj; simp [Array.getD, hj]
+          exact ((copyArr_spec m.cap n _ m.cells r.cursor w.cursor (by simp) hc.1 hc.2 h0).2 j hj).symm
+        · rename_i hj
+          exact copyCells_outside _ _ _ _ _ (Or.inr (by omega))
+      · rfl
+    · rfl
+
 /-- `new_write_frame`, with the two debug assertions turned into crashes -/
 def newWrite (n : Nat) (m : M) : Except Err M :=
   if m.next + n ≤ m.cap ∧ m.write.length + m.read.length < m.fcap then
